@@ -18,13 +18,19 @@ def main():
   only = [a for a in sys.argv[1:] if a in seeds]
   if only:
     seeds = only
-  work = [(p, {"id": s, "patch": f"seeded/{s}/patch.diff"}, "/repo") for s in seeds for p in props]
+  work = [(p, {"id": "__base__", "subs": []}, "/repo") for p in props] + [(p, {"id": s, "patch": f"seeded/{s}/patch.diff"}, "/repo") for s in seeds for p in props]
   with mp.get_context("fork").Pool(jobs, maxtasksperchild=1) as pool:
     results = pool.map(selftest._run_one, work, chunksize=1)
   base = {}
   # base run on the unchanged tree to subtract (should be empty)
   matrix = {s: {} for s in seeds}
   for (p, e, _), (eid, status, keys, note) in zip(work, results):
+    if eid == "__base__":
+      base[p] = set(keys)
+  for (p, e, _), (eid, status, keys, note) in zip(work, results):
+    if eid == "__base__":
+      continue
+    keys = [k for k in keys if k not in base.get(p, ())]
     if status == "skipped":
       matrix[eid][p] = "SKIP:" + note
     elif keys:
